@@ -82,6 +82,21 @@ def run(payload):
                 for name, val in routes.items():
                     if not close(val, ref):
                         fail(f"route_disagrees.{name}", grid=repr(grid), bc=repr(bc), max_dev=float(np.max(np.abs(val - ref))))
+        # per-face-cell (inhomogeneous) second-order condition through the matrix route
+        grid = CartesianGrid([(0, 1.2), (0, 1.2)], [4, 4])
+        f = ScalarField(grid, rng.uniform(-1, 1, grid.shape))
+        bc = {"x-": {"curvature": rng.uniform(-1, 1, 4)}, "x+": {"value": rng.uniform(-1, 1, 4)}, "y-": {"derivative": rng.uniform(-1, 1, 4)}, "y+": {"curvature": rng.uniform(-1, 1, 4)}}
+        cases += 1
+        try:
+            from pde.backends.scipy.operators import cartesian, common
+            bcs = grid.get_boundary_conditions(bc)
+            mat, vec = cartesian._get_laplace_matrix(bcs)
+            got = common.make_laplace_from_matrix(mat, vec)(f.data)
+            ref = f.laplace(bc).data
+            if not close(got, ref) or not close(f.laplace(bc, backend="scipy").data, ref):
+                fail("route_disagrees.matrix_inhomogeneous_bc", max_dev=float(np.max(np.abs(got - ref))))
+        except Exception as e:
+            fail("matrix_inhomogeneous_error", error=f"{type(e).__name__}: {str(e)[:300]}")
         # time-dependent BC given as a callable: args must reach the setter on every route
         grid = UnitGrid([5])
         f = ScalarField(grid, rng.uniform(-1, 1, 5))
